@@ -64,6 +64,12 @@ struct rstate {
 	int dep;		/* re_rec() depth */
 };
 
+#ifdef NEATVI_VERIF
+int neatvi_verif_re_cut;	/* branches cut by the depth limit or the step budget */
+long neatvi_verif_re_budget;	/* if nonzero, re_rec() gives up after this many calls */
+long neatvi_verif_re_steps;	/* re_rec() calls since the monitor last reset it */
+#endif
+
 /* regular expression tree; used for parsing */
 struct rnode {
 	struct ratom ra;	/* regular expression atom (RN_ATOM) */
@@ -573,6 +579,14 @@ void regfree(regex_t *preg)
 static int re_rec(struct regex *re, struct rstate *rs)
 {
 	struct rinst *ri = NULL;
+#ifdef NEATVI_VERIF
+	if (rs->dep >= NDEPT)
+		neatvi_verif_re_cut++;
+	if (neatvi_verif_re_budget && ++neatvi_verif_re_steps > neatvi_verif_re_budget) {
+		neatvi_verif_re_cut++;
+		return 1;
+	}
+#endif
 	if (rs->dep >= NDEPT)
 		return 1;
 	rs->dep++;
